@@ -166,6 +166,10 @@ def R2_split(run):
     if ok:
         a = cf[0][2]
         ok = m.step_field(a[0], "fee_amount") and arg_name(a[1]) == "protocol_fee_rate" and m.is_var(a[2], "liquidity") and m.is_var(a[3], "protocol_fee") and m.is_var(a[4], "fee_growth_input")
+        # the accumulators handed in are the running ones as they are now (a copy taken at the start of a tick segment would drop
+        # the growth of the earlier steps of that segment)
+        t_ = cf[0][1]
+        ok = ok and m.reads_now(cf[0][0], t_["a"][3], "protocol_fee") and m.reads_now(cf[0][0], t_["a"][4], "fee_growth_input") and m.reads_now(cf[0][0], t_["a"][2], "liquidity")
     run.check("R2", "loop-wiring", ok, "swap loop does not call calculate_fees(step.fee_amount, pool.protocol_fee_rate, current liquidity, running protocol fee, running growth)", loc=sw.loc(),
               detail="calculate_fees(step fee, rate, L, protocol acc, growth acc)")
     f = m.result_fields()
@@ -195,6 +199,19 @@ def R3_booking_side(run):
         ok = ("fee_growth_global_" + side) in fields and ("protocol_fee_owed_" + side) in fields and ("fee_growth_global_" + other) not in fields and ("protocol_fee_owed_" + other) not in fields
         run.check("R3", "side[is_token_fee_in_a=%d]" % val, ok, "update_after_swap(is_token_fee_in_a=%s) writes %s" % (val, sorted(f for f in fields if "fee" in f)), loc=fn.loc(),
                   detail="writes fee_growth_global_%s, protocol_fee_owed_%s" % (side, side))
+        # the five state fields take the caller's values as they are (a "defensive" transformation of the tick or the price here
+        # desynchronises the stored tick from the liquidity the loop computed for it)
+        pvs = prov_of(fn, {"is_token_fee_in_a": val})
+        plain = {"tick_current_index": "tick_index", "sqrt_price": "sqrt_price", "liquidity": "liquidity", "reward_infos": "reward_infos",
+                 "reward_last_updated_timestamp": "reward_last_updated_timestamp"}
+        wrong = []
+        for w in ws:
+            if w.get("field") in plain and "rv" in w and w["kind"] == "assign":
+                v_ = pvs._rvalue(w["rv"], w["block"], w["stmt"], 0)
+                if not is_param(v_, plain[w["field"]]):
+                    wrong.append("%s := %s" % (w["field"], sh(v_, 50)))
+        run.check("R3", "stores-as-given[is_token_fee_in_a=%d]" % val, not wrong and set(plain) <= fields, "update_after_swap stores %s; expected each of %s to take its parameter unchanged" % (wrong or sorted(fields), sorted(plain)),
+                  loc=fn.loc(), detail="tick, price, liquidity, reward infos, timestamp := the parameters")
         # every store of this side happens on every way out: no return is reachable (under this flag) around any of them, so a swap
         # that leaves the price where it was still books its fee
         infeasible = [b for b in range(len(fn.blocks)) if fl.state_in[b] is None]
